@@ -2,7 +2,7 @@
    patterns (carrier N, as in Model/WKB.v).
      writer: ival := int64(math.Round(fval * scalings[d]))        geom/twkb_write.go:writePointArray
      parser: coords[c] = float64(refpoint[d]) / scalings[d]       geom/twkb_parser.go:parsePointArray
-     scalings[d] = math.Pow10(prec)                               (Go: 10^n table for n >= 0, 1/10^-n for n < 0)
+     scalings[d] = twkbScaling(prec) = math.Pow10(|prec|)         (exact; divide/multiply swapped for prec < 0: fix F71)
    Every float operation of the implementation is one correctly rounded IEEE operation
    (round to nearest, ties to even); it is modelled as the exact rational result followed by
    [rne]. No floating-point primitive is used: the functions are ordinary Gallina and are extracted.
@@ -50,10 +50,11 @@ Definition fenc (neg : bool) (m e : Z) : N :=
   Z.to_N ((if neg then 9223372036854775808 else 0) +
           (if m <? p52 then m else (e + 1075) * p52 + (m - p52))).
 
-(* math.Pow10(p) as a dyadic (m, e), for -8 <= p <= 7 (the only exponents the code can reach):
-   p >= 0: the table entry 10^p (exact); p < 0: 1 / 10^-p, one correctly rounded division *)
-Definition pow10 (p : Z) : option (Z * Z) :=
-  if 0 <=? p then Some (10 ^ p, 0) else rne 1 (10 ^ (- p)).
+(* twkbScaling(p) (fix F71) = math.Pow10(|p|), an exact integer for |p| <= 8. For p >= 0 the writer
+   multiplies by it and the parser divides; for p < 0 (only possible for X/Y) the writer divides and
+   the parser multiplies. (Before the repair both used 10^p, which is not representable for p < 0:
+   a value on the grid could come back one ulp off.) *)
+Definition pow10abs (p : Z) : Z * Z := (10 ^ Z.abs p, 0).
 
 (* exact product / quotient of two dyadics as a rational n/d, n, d > 0 *)
 Definition dy_mul (a b : Z * Z) : Z * Z :=
@@ -72,11 +73,11 @@ Definition round_half_away (m e : Z) : Z :=
 
 (* writer side. fix F18: NaN/Inf or a rounded value outside int64 is an error *)
 Definition quant (p : Z) (bits : N) : outcome Z :=
-  match fdec bits, pow10 p with
-  | Some (s, m, e), Some sc =>
+  match fdec bits with
+  | Some (s, m, e) =>
       if m =? 0 then Ok 0
       else
-        let '(n, d) := dy_mul (m, e) sc in
+        let '(n, d) := if 0 <=? p then dy_mul (m, e) (pow10abs p) else dy_div (m, e) (pow10abs p) in
         match rne n d with
         | None => Err EOther
         | Some (m', e') =>
@@ -84,21 +85,21 @@ Definition quant (p : Z) (bits : N) : outcome Z :=
             let k := if s then - k else k in
             if in_i64b k then Ok k else Err EOther
         end
-  | _, _ => Err EOther
+  | None => Err EOther
   end.
 
 (* parser side: float64(k) / scale *)
 Definition dequant (p : Z) (k : Z) : N :=
   if k =? 0 then 0%N
   else
-    match rne (Z.abs k) 1, pow10 p with
-    | Some fk, Some sc =>
-        let '(n, d) := dy_div fk sc in
+    match rne (Z.abs k) 1 with
+    | Some fk =>
+        let '(n, d) := if 0 <=? p then dy_div fk (pow10abs p) else dy_mul fk (pow10abs p) in
         match rne n d with
         | Some (m, e) => fenc (k <? 0) m e
         | None => if k <? 0 then 18442240474082181120%N else 9218868437227405312%N  (* +-Inf *)
         end
-    | _, _ => 0%N
+    | None => 0%N
     end.
 
 (* ---- lifting to geometries ---- *)
